@@ -70,7 +70,19 @@ char *d_string_copy_substring(DString *d, size_t start, size_t len) {
 	return r;
 }
 #ifndef DS_NO_PRINTF
-/* formatted append: default model appends nothing but is overridable by harnesses that care (define DS_NO_PRINTF and supply their own) */
-void d_string_append_printf(DString *d, const char *format, ...) { (void) d; (void) format; }
-void d_string_insert_printf(DString *d, size_t pos, const char *format, ...) { (void) d; (void) pos; (void) format; }
+/* formatted append: a small real formatter for the conversions the writers use (%s %d %%; anything else is copied literally).
+   Harnesses that need to observe the arguments define DS_NO_PRINTF and supply a recorder instead. */
+static void ds_vfmt(DString *d, size_t pos, int insert, const char *f, va_list ap) {
+	char tmp[DS_CAP]; size_t n = 0;
+	for (size_t i = 0; f[i]; i++) {
+		if (f[i] == '%' && f[i + 1] == 's') { const char *s = va_arg(ap, const char *); if (s) for (size_t j = 0; s[j]; j++) { DS_ASSERT(n + 1 < DS_CAP, "ds_model capacity (harness bound)"); tmp[n++] = s[j]; } i++; }
+		else if (f[i] == '%' && f[i + 1] == 'd') { int v = va_arg(ap, int); char b[12]; int k = 0; unsigned u = v < 0 ? (unsigned) (-(v + 1)) + 1u : (unsigned) v; if (v < 0) { DS_ASSERT(n + 1 < DS_CAP, "ds_model capacity (harness bound)"); tmp[n++] = '-'; } do { b[k++] = (char) ('0' + u % 10); u /= 10; } while (u && k < 11); while (k > 0) { DS_ASSERT(n + 1 < DS_CAP, "ds_model capacity (harness bound)"); tmp[n++] = b[--k]; } i++; }
+		else if (f[i] == '%' && f[i + 1] == '%') { DS_ASSERT(n + 1 < DS_CAP, "ds_model capacity (harness bound)"); tmp[n++] = '%'; i++; }
+		else { DS_ASSERT(n + 1 < DS_CAP, "ds_model capacity (harness bound)"); tmp[n++] = f[i]; }
+	}
+	tmp[n] = 0;
+	if (insert) d_string_insert(d, pos, tmp); else d_string_append(d, tmp);
+}
+void d_string_append_printf(DString *d, const char *format, ...) { if (d && format) { va_list ap; va_start(ap, format); ds_vfmt(d, 0, 0, format, ap); va_end(ap); } }
+void d_string_insert_printf(DString *d, size_t pos, const char *format, ...) { if (d && format) { va_list ap; va_start(ap, format); ds_vfmt(d, pos, 1, format, ap); va_end(ap); } }
 #endif
